@@ -5,6 +5,7 @@ from mc.checks import codec_matrix as CM
 from mc.model import x690 as M
 from mc.model import universe as U
 from mc.bind import pyasn1_bind as B
+from mc.env import streams as ST
 from mc.core.runner import guarded, Result, pyasn1_site
 
 from pyasn1.codec.ber import decoder as ber_dec
@@ -17,7 +18,7 @@ LEVEL = 'exploration'
 RULE = ('E1 exhaustive product: every encoding (DER, CER, BER def/indef x chunk {0,2}) of every (type, value) of '
         'universe slices LEAF,TAGS(depth<=1 + depth-2 sample),REC,OF,CH,NEST x tails {empty, 00, 0000, 000000, FF, 0500, '
         'another encoding}; one-shot decode must return (value, tail). Streaming clause: streams of n in {1,2,3} '
-        'concatenated encodings, one object per encoding and stream.tell() == end offset after each. '
+        'concatenated encodings presented as BytesIO, as another seekable stream and as a source that cannot seek (behind the library wrapper), one object per encoding and (seekable kinds) stream.tell() == end offset after each. '
         'Inputs are the reference-model encodings (decoder is the unit under test); distinct = digest of '
         '(bytes, tail, decoder).')
 ASSUMPTIONS = [
@@ -26,6 +27,20 @@ ASSUMPTIONS = [
     'CPython 3.12, PYTHONHASHSEED=0',
 ]
 TAILS = (b'', b'\x00', b'\x00\x00', b'\x00\x00\x00', b'\xff', b'\x05\x00', b'\x02\x01\x07')
+class Untellable(object):
+    def __init__(self, raw):
+        self.raw = raw
+
+    def read(self, n=-1):
+        return self.raw.read(n)
+
+    def seekable(self):
+        return False
+
+    def tell(self):
+        return None
+
+
 STREAMERS = {'ber': ber_dec.StreamingDecoder, 'cer': cer_dec.StreamingDecoder, 'der': der_dec.StreamingDecoder}
 
 
@@ -122,17 +137,24 @@ def check_case(idx, name, T, v, tier, R, others):
     for seq in seqs:
         if not seq:
             continue
-        for decname in ('ber', 'der'):
+        for decname, kind in (('ber', 'bytesio'), ('der', 'bytesio'), ('ber', 'seekable'), ('ber', 'nonseekable'), ('der', 'nonseekable')):
             if not all(accepts(decname, f) for f, _, _ in seq):
                 continue
             if decname == 'der' and 'any_nonder' in feats:
                 continue
             stream = b''.join(d for _, _, d in seq)
             R.evaluations += 1
-            R.nontrivial((stream, 'stream', decname))
-            rec = {'slice': name, 'T': T, 'v': v, 'forms': [f for f, _, _ in seq], 'dec': decname, 'streaming': True}
-            f2 = feats | {'streaming', 'dec:' + decname, 'n:%d' % len(seq)}
-            bio = io.BytesIO(stream)
+            R.nontrivial((stream, 'stream', decname, kind))
+            rec = {'slice': name, 'T': T, 'v': v, 'forms': [f for f, _, _ in seq], 'dec': decname, 'streaming': True, 'kind': kind}
+            f2 = feats | {'streaming', 'dec:' + decname, 'n:%d' % len(seq), 'kind:' + kind}
+            if kind == 'bytesio':
+                bio = io.BytesIO(stream)
+            elif kind == 'seekable':
+                bio = ST.SeekableNB(ST.ScheduledCore(stream))
+            else:
+                # a source that cannot seek: the decoder puts its own seek-back wrapper around it, whose positions
+                # are relative to its last mark (so tell() is not compared for this kind)
+                bio = Untellable(ST.NonSeekableNB(ST.ScheduledCore(stream)))
             ends = []
             acc = 0
             for _, _, d in seq:
@@ -161,7 +183,7 @@ def check_case(idx, name, T, v, tier, R, others):
                 if a == 'underrun' or not M.values_equal(T, a, v):
                     R.violation('stream.value', rec, repr(a), repr(v), decname + '.decoder', f2, idx)
                     break
-                if pos != end:
+                if pos is not None and pos != end:
                     R.violation('stream.position', rec, 'tell()=%d' % pos, 'tell()=%d' % end,
                                 decname + '.decoder', f2, idx)
                     break
